@@ -124,7 +124,7 @@ def load_overlay(path, variants=frozenset()):
                 sec = (m.group(1), m.group(2), no)
             elif m2:
                 sec = (m2.group(1), int(m2.group(2)), m2.group(3))
-            elif h in ('requires', 'ensures', 'body-start', 'body-end'):
+            elif h in ('requires', 'ensures', 'decreases', 'body-start', 'body-end'):
                 sec = h
             else:
                 raise Unsupported('%s:%d: unknown section %r' % (path, no, h))
@@ -762,6 +762,9 @@ def extract_fn(item, file, impl_key, spec, twin_false=False):
         ens = (ens or '') + '//# vacuity-false:\nvacuity_probe_%s(),\n' % twin_false
     if ens is not None:
         out += splice_toks('ensures\n' + ens + '//#end\n')
+    if spec and 'decreases' in spec.sections:
+        out += splice_toks('decreases\n' + spec.sections['decreases'] + '//#end\n')
+        used.add('decreases')
     out.append(toks[item.body_open])
     if spec and 'body-start' in spec.sections:
         out += splice_toks('\n' + spec.sections['body-start'])
